@@ -24,7 +24,7 @@ def _min(a, b):
     return a if a < b else b
 
 
-def tpl_size(old, d, op, new, d2, simple=0, _twin=False):
+def tpl_size(old, d, op, new, d2, simple=0, half=0, _twin=False):
     w = World("c15.size")
     code = 0
     reached = False
@@ -52,6 +52,9 @@ def tpl_size(old, d, op, new, d2, simple=0, _twin=False):
                     code = 1501
             elif not code:
                 w.op("set", new)
+                if half == 1 and new < 0:
+                    from fractions import Fraction
+                    new = Fraction(new, 2)      # e.g. -1/2: still negative, still to be rejected
                 if new < 0:
                     snap = (pool.num_running, w.live, pool._enough_room._value, len(w.W))
                     try:
@@ -167,11 +170,11 @@ def tpl_eventually(old, d, new, _twin=False):
 
 def families(tier):
     thorough = tier == "thorough"
-    P = ["old", "d", "op", "new", "d2", "simple"]
+    P = ["old", "d", "op", "new", "d2", "simple", "half"]
     dm = 4 if thorough else 3
-    pre = ["old >= -1", "0 <= d <= %d" % dm, "0 <= op <= 1", "0 <= d2 <= 3", "op == 1 or (new == 0 and d2 == 0)", "0 <= simple <= 1"]
+    pre = ["old >= -1", "0 <= d <= %d" % dm, "0 <= op <= 1", "0 <= d2 <= 3", "op == 1 or (new == 0 and d2 == 0)", "0 <= simple <= 1", "0 <= half <= 1", "half == 0 or (op == 1 and -9 <= new < 0)"]
     return [Family(name="size", fn="tpl_size", params=P, pre=pre, parts=parts_product(d=range(dm + 1), op=(0, 1), simple=(0, 1)),
-                   twin_pre=["d == 0", "op == 1"], twin_args=[1, 0, 1, 3, 2, 0]),
+                   twin_pre=["d == 0", "op == 1"], twin_args=[1, 0, 1, 3, 2, 0, 0]),
             Family(name="eventually", fn="tpl_eventually", params=["old", "d", "new"],
                    pre=["old >= 1", "1 <= d <= %d" % dm, "new >= 1"], parts=parts_product(d=range(1, dm + 1)),
                    twin_pre=["d == 3"], twin_args=[1, 3, 2]),
